@@ -477,15 +477,58 @@ class Interp:
     (dotted, call node, interp) may return a Rat for calls it knows (method
     inlining, helper functions) or None."""
 
-    def __init__(self, env=None, attr=None, call_hook=None):
+    def __init__(self, env=None, attr=None, call_hook=None, module=None, depth=0):
         self.env = dict(env or {})
         self.attr = dict(attr or {})
         self.call_hook = call_hook
+        self.module = module      # source Module: module-level helper functions are inlined, module constants evaluated
+        self.depth = depth
         self.ret = None
 
     def fork(self):
-        i = Interp(self.env, self.attr, self.call_hook)
+        i = Interp(self.env, self.attr, self.call_hook, self.module, self.depth)
         return i
+
+    def _module_const(self, name):
+        m = self.module
+        if m is None:
+            return None
+        for st in m.tree.body:
+            if isinstance(st, ast.Assign) and any(isinstance(t, ast.Name) and t.id == name for t in st.targets):
+                if self.depth > 6:
+                    raise Undecided("recursive module constant %s" % name)
+                return Interp({}, {}, self.call_hook, m, self.depth + 1).ev(st.value)
+        return None
+
+    def _module_call(self, dn, e):
+        m = self.module
+        if m is None or dn is None or "." in dn or dn not in m.functions or dn in self.env:
+            return None
+        if self.depth > 6:
+            raise Undecided("inlining depth exceeded at %s" % dn)
+        f = m.functions[dn]
+        a = f.node.args
+        if a.vararg is not None or a.kwarg is not None:
+            raise Undecided("*args of helper %s" % dn)
+        params = [x.arg for x in a.posonlyargs + a.args]
+        defaults = dict(zip(params[len(params) - len(a.defaults):], a.defaults))
+        env = {}
+        for p_, arg in zip(params, e.args):
+            env[p_] = self.ev(arg)
+        for k in e.keywords:
+            if k.arg is None:
+                raise Undecided("**kwargs in call of %s" % dn)
+            env[k.arg] = self.ev(k.value)
+        for p_ in params:
+            if p_ not in env:
+                if p_ not in defaults:
+                    raise Undecided("missing argument %s of %s" % (p_, dn))
+                env[p_] = Interp({}, {}, None, m, self.depth + 1).ev(defaults[p_])
+        sub = Interp(env, {}, self.call_hook, m, self.depth + 1)
+        sub.run(f.node.body)
+        if sub.ret is None or isinstance(sub.ret, str):
+            raise Undecided("helper %s does not return a value on this path" % dn)
+        return sub.ret
 
     # ---- expressions
     def ev(self, e):
@@ -500,6 +543,9 @@ class Interp:
                 return self.env[e.id]
             if e.id in CONSTS:
                 return CONSTS[e.id]
+            v = self._module_const(e.id)
+            if v is not None:
+                return v
             raise Undecided("unbound name %s" % e.id)
         if isinstance(e, ast.Attribute):
             dn = dotted(e)
@@ -540,6 +586,14 @@ class Interp:
                 r = self.call_hook(dn, e, self)
                 if r is not None:
                     return r
+            if dn == "bool" and len(e.args) == 1:
+                v = self.ev(e.args[0])
+                if isinstance(v, bool) or v is None:
+                    return bool(v)
+                raise Undecided("bool() of a symbolic value")
+            r = self._module_call(dn, e)
+            if r is not None:
+                return r
             if dn in NP_FUNCS and len(e.args) == 1:
                 return NP_FUNCS[dn](self.ev(e.args[0]))
             if dn in ("np.ones", "numpy.ones", "np.ones_like"):
@@ -628,7 +682,7 @@ class Interp:
     # ---- statements
     def run(self, stmts):
         """execute statements; returns True if a return was executed on every path"""
-        for st in stmts:
+        for idx, st in enumerate(stmts):
             if self.ret is not None:
                 return True
             if isinstance(st, ast.Expr):
@@ -665,12 +719,15 @@ class Interp:
                 elif t is False:
                     self.run(st.orelse)
                 else:
+                    # undecidable test (a runtime shape): both arms, each followed by the rest of this block, must agree
+                    rest = list(stmts[idx + 1:])
                     a, b = self.fork(), self.fork()
-                    a.run(st.body)
-                    b.run(st.orelse)
+                    a.run(list(st.body) + rest)
+                    b.run(list(st.orelse) + rest)
                     if not _same_state(a, b):
                         raise Undecided("branches of `if %s` give different values" % norm(st.test)[:60])
                     self.env, self.ret = a.env, a.ret
+                    return self.ret is not None
             elif isinstance(st, (ast.Raise, ast.Assert, ast.Pass)):
                 if isinstance(st, ast.Raise):
                     self.ret = "raise"
@@ -715,9 +772,9 @@ def _same_state(a, b):
     return True
 
 
-def eval_function(func_node, env, attr=None, call_hook=None):
+def eval_function(func_node, env, attr=None, call_hook=None, module=None):
     """interpret a whole function body; returns the returned Rat"""
-    it = Interp(env, attr, call_hook)
+    it = Interp(env, attr, call_hook, module)
     body = func_node.body
     it.run(body)
     if it.ret is None or isinstance(it.ret, str):
